@@ -48,7 +48,10 @@ ENGINES = ["lean-model", "purediff", "kopfsim"]
 TIE = ("D: the real processing.process_resource_event (only process_resource_causes replaced by a stand-in that accumulates the case's "
        "fields and fns; real memories, real application.apply, real hand-over of the remaining patch, real exception path) and, for the "
        "daemons' way, real patching.patch_obj / application.apply, against the stateful fake API, bounded-exhaustive grid "
-       "(thorough) + random contents; S: every patch_obj call of whole-operator simulations replayed through the model")
+       "(thorough) + random contents; the Resource handed to them (with its subresources) comes from the real scanning.scan_resources "
+       "over the case's cluster (other resources beside the object's, related names, any entry order), and the model's `sub` from its own "
+       "reading of the served discovery entries (readVersion, also compared with the real scan per group/version); "
+       "S: every patch_obj call of whole-operator simulations (their clusters have such neighbours too) replayed through the model")
 STRENGTH = "partial"    # DESIGN §8 sense (LEVEL stays the schema's technique category "proof")
 LEVEL_TEXT = (
     "PARTIAL in the sense of DESIGN §8: `only ever lands on the object it was computed for` is proved under a guard only "
@@ -80,7 +83,12 @@ LEVEL_TEXT = (
     "operator); remaining_stays_with_its_uid (the memory is per uid: a cycle for a re-used name starts clean); noop_patch_sends_nothing + returns_none_none_iff (a non-empty patch whose fns are no-ops "
     "sends nothing and returns (None, None), the very pair a vanished object gives: the caller cannot tell them apart — what "
     "application.apply does with that is C03/C06's clause); silent_404, raised_only_on_api_error; same_object_partial and the "
-    "negation of the full same_object: name_reuse_witness (finding F2). Hand-written model, tied to the real "
+    "negation of the full same_object: name_reuse_witness (finding F2); `exactly when the resource has one` end to end: discovered_subresources "
+    "(for EVERY cluster — any resources side by side, plurals that are prefixes/extensions/suffixes of one another, any subresource names, any order "
+    "of the discovery entries — what scanning._read_version collects for a plural is what the cluster serves for that plural), "
+    "status_belief_is_cluster_fact, status_routed_iff_served (a request goes to /status only if the cluster serves it for THIS resource, and then the "
+    "main endpoint gets no status content), prefix_match_variant_witness (the delimiter-less match of seed C08g: a living object taken for vanished, "
+    "status and finalizer lost). Hand-written model, tied to the real "
     "patch_obj/apply by a differential run (complete over the stated 32130-case grid in the thorough tier, sampled in quick, "
     "plus random contents, several writes per slot, error codes 400/409) and to the whole operator by replaying every "
     "observed patch_obj call. The eventual state of the framework's own finalizer and `applied exactly once` for handler fns "
@@ -100,7 +108,8 @@ THEOREMS = [("Kopf.Props.C08", "Kopf.C08." + n) for n in [
     "patch_is_own_accumulation", "delivery_sends_own_patch", "daemon_delivery_not_repeated",
     "daemon_exit_drops_remaining_witness", "remaining_stays_with_its_uid",
     "noop_patch_sends_nothing", "returns_none_none_iff",
-    "silent_404", "raised_only_on_api_error", "same_object_partial", "name_reuse_witness"]]
+    "silent_404", "raised_only_on_api_error", "same_object_partial", "name_reuse_witness",
+    "discovered_subresources", "status_belief_is_cluster_fact", "status_routed_iff_served", "prefix_match_variant_witness"]]
 RULE = (
     "grid: subresource(2) x initial object {plain, foreign+own finalizer, marked+own finalizer}(3) x fields {none, "
     "metadata annotations, spec, status, metadata+status}(5) x fns {none, [block], [allow], [block,allow], [setStatus], "
@@ -112,9 +121,13 @@ RULE = (
     "handler-supplied fns ask for, the next cycle comes with/without dict content and new fns, the effect is sometimes undone again before one of "
     "its requests or by its own merge-patch; a case is "
     "distinct & non-trivial by its abstract trace (request kinds, codes, uid hits, slip fired, outcome) when at least "
-    "one request was sent")
+    "one request was sent; every generated case (85%) gets a cluster: 1-4 other resources whose plural extends `kopfexamples` / is a prefix "
+    "of it / ends like it / is the same / is unrelated, in the same group/version, another version, another group or the core group, 70% "
+    "with the opposite `status` fact, look-alike subresource names (statusx, xstatus, status/x, scale), discovery entries as listed / "
+    "subresources first / last / reversed / shuffled; the object's Resource is what kopf's own scan of that cluster returns")
 TRUSTED = [
-    "harness/sim/fakeapi.py: merge-patch / json-patch(test) / status-subresource / finalizer+deletionTimestamp semantics",
+    "harness/sim/fakeapi.py: merge-patch / json-patch(test) / status-subresource / finalizer+deletionTimestamp semantics; its API discovery "
+    "answers (one flat entry list per group/version: resources and `plural/subresource` entries; 404 for a subresource that is not served)",
     "jsonpatch.JsonPatch.from_diff is taken by its contract (ops that turn the first document into the second); "
     "harness/rfc.py applies add/remove/replace/test/move/copy",
     "the abstraction: system metadata fields and metadata.finalizers are split off the body; JSON-patch ops are "
@@ -145,6 +158,67 @@ SIG_F2 = {"site": "patching.patch_obj",
 SIG_F3 = {"site": "daemons._daemon", "shape": "the runner ends after a refused (422) delivery: the remaining transformations are dropped with it"}
 SIG_STATUS_NULL = {"site": "patching.patch_obj",
                    "shape": "status: null with a status subresource: the removal is dropped, no request is sent"}
+
+
+GROUP, VERSION, PLURAL = "kopf.dev", "v1", "kopfexamples"
+SIG_ROUTE = {"site": "patching.patch_obj", "shape": "status routed to a missing subresource"}
+SIG_LIVING_404 = {"site": "patching.patch_obj",
+                  "shape": "a request for a living object was answered 404 (no such endpoint): the rest of the accumulated patch is dropped as for a vanished object"}
+SIG_DISCOVERY = {"site": "scanning._read_version",
+                 "shape": "what the operator takes for the resource's subresources is not what the cluster serves for it"}
+
+
+# ----------------------------------------------------------------------------------------------
+# the cluster around the object: the other resources served next to `kopfexamples` (and what their names have to do
+# with its name), and the order of the entries in the API discovery answers
+def make_cluster(fakeapi: Any, kex: Any, conf: dict | None) -> Any:
+    """conf = {"siblings": [{"group","version","plural","kind","subs":[...], "namespaced"}], "order": "asis" |
+    "subs-first" | "subs-last" | "reversed" | ["shuffled", seed]}; None: `kopfexamples` alone, as listed by fakeapi."""
+    import random as _random
+
+    class Cluster(fakeapi.Cluster):
+        served_discovery: dict[str, list[str]]
+
+        def discovery(self, path: str) -> dict | None:      # type: ignore[override]
+            d = super().discovery(path)
+            if d is not None and d.get("kind") == "APIResourceList":
+                items = list(d["resources"])
+                order = (conf or {}).get("order") or "asis"
+                if order == "subs-first":
+                    items = [i for i in items if "/" in i["name"]] + [i for i in items if "/" not in i["name"]]
+                elif order == "subs-last":
+                    items = [i for i in items if "/" not in i["name"]] + [i for i in items if "/" in i["name"]]
+                elif order == "reversed":
+                    items.reverse()
+                elif isinstance(order, list) and order[0] == "shuffled":
+                    _random.Random(f"{order[1]}:{path}").shuffle(items)
+                d["resources"] = items
+                self.served_discovery[d["groupVersion"]] = [i["name"] for i in items]
+            return d
+
+    c = Cluster([fakeapi.NAMESPACES, fakeapi.CRDS, kex])
+    c.served_discovery = {}
+    for n, sib in enumerate((conf or {}).get("siblings") or []):
+        rd = fakeapi.ResourceDef(sib["group"], sib["version"], sib["plural"], sib.get("kind") or f"Sibling{n}",
+                                 namespaced=bool(sib.get("namespaced", True)), subresources=tuple(sib.get("subs") or ()))
+        if rd.key in c.resources:
+            continue
+        c.add_resource(rd, announce=False)
+    return c
+
+
+def own_subresources(sub: bool, conf: dict | None) -> tuple[str, ...]:
+    """`status` if the case says so, plus the resource's other subresources (never `status` itself: look-alikes of it)."""
+    return (("status",) if sub else ()) + tuple(x for x in ((conf or {}).get("own_subs") or []) if x != "status")
+
+
+def cluster_facts(case: dict) -> dict[str, list[str]]:
+    """What the case's cluster serves, from the case alone: resource -> its subresources."""
+    out = {f"{GROUP}/{VERSION}/{PLURAL}": sorted(own_subresources(case["sub"], case.get("cluster"))), "/v1/namespaces": [],
+           "apiextensions.k8s.io/v1/customresourcedefinitions": []}
+    for sib in (case.get("cluster") or {}).get("siblings") or []:
+        out.setdefault(f"{sib['group']}/{sib['version']}/{sib['plural']}", sorted(sib.get("subs") or []))
+    return out
 
 
 # ----------------------------------------------------------------------------------------------
@@ -314,9 +388,9 @@ class CaseRun:
         from ..sim import fakeapi
         self.case = case
         self.fakeapi = fakeapi
-        self.kex = fakeapi.ResourceDef("kopf.dev", "v1", "kopfexamples", "KopfExample", namespaced=True,
-                                       shortnames=("kex",), subresources=("status",) if case["sub"] else ())
-        self.c = fakeapi.Cluster([fakeapi.NAMESPACES, fakeapi.CRDS, self.kex])
+        self.kex = fakeapi.ResourceDef(GROUP, VERSION, PLURAL, "KopfExample", namespaced=True,
+                                       shortnames=("kex",), subresources=own_subresources(case["sub"], case.get("cluster")))
+        self.c = make_cluster(fakeapi, self.kex, case.get("cluster"))
         ini = case["initial"]
         body = copy.deepcopy(ini.get("body") or {})
         if ini.get("fins"):
@@ -375,6 +449,7 @@ class CaseRun:
         code = (self.cur.get("faults") or {}).get(kind)
         if code and kind not in self.cur["_faulted"]:
             self.cur["_faulted"].add(kind)
+            req["c08_injected"] = True
             return self.fakeapi.Fault("status", int(code))
         return None
 
@@ -462,7 +537,8 @@ class CaseRun:
             reqs.append({"kind": kind, "payload": abs_payload(kind, r["payload"], base), "raw_payload": copy.deepcopy(r["payload"]),
                          "target": uid_num(r.get("target_uid")), "code": r["response"] if isinstance(r["response"], int) else str(r["response"]),
                          "slip": rec["slip"], "pre": rec["pre"], "post": rec["post"], "base_rv": int(base["metadata"]["resourceVersion"]),
-                         "path": r["path"], "ctype": r["ctype"], "result": copy.deepcopy(r.get("result"))})
+                         "path": r["path"], "ctype": r["ctype"], "result": copy.deepcopy(r.get("result")),
+                         "injected": bool(r.get("c08_injected"))})
             if r["response"] == 200 and r.get("result") is not None:
                 last_ok = r["result"]
         assert len(self.c.requests) - n0 == len(self.log)
@@ -556,8 +632,16 @@ async def _run_case(case: dict, settings: Any, logger: Any) -> dict:
     vault = credentials.Vault({"fake": credentials.AiohttpSession(
         aiohttp_session=sess, server="http://fake", default_namespace="default")})  # type: ignore[arg-type]
     auth.vault_var.set(vault)
-    resource = references.Resource("kopf.dev", "v1", "kopfexamples", namespaced=True,
-                                   subresources=frozenset({"status"}) if case["sub"] else frozenset())
+    # The resource (with what kopf believes its subresources to be) comes from kopf's own API discovery of the
+    # case's cluster -- never built by hand: `sub` of the case is the CLUSTER's fact, the routing is the code's.
+    from kopf._cogs.clients import scanning
+    found = await scanning.scan_resources(settings=settings, logger=logger)
+    discovered = {"resources": {f"{r.group}/{r.version}/{r.plural}": sorted(r.subresources) for r in found},
+                  "served": copy.deepcopy(run.c.served_discovery)}
+    mine = [r for r in found if (r.group, r.version, r.plural) == (GROUP, VERSION, PLURAL)]
+    if len(mine) != 1:
+        return {"cycles": [], "discovered": discovered, "undiscovered": True}
+    resource = mine[0]
     cycles = []
     remaining = None
     event = case.get("carrier", "event") == "event"
@@ -573,7 +657,7 @@ async def _run_case(case: dict, settings: Any, logger: Any) -> dict:
                 o["memory_after"] = None if remaining is None else [run.names[id(f)] for f in remaining[0].fns]
             # after an exception the runner's patch object is as it was (the model's `.raised => mem`)
         cycles.append(o)
-    return {"cycles": cycles}
+    return {"cycles": cycles, "discovered": discovered}
 
 
 def run_cases_here(cases: list[dict]) -> list[dict]:
@@ -710,6 +794,13 @@ def oracle_call(ctx: Ctx, case: Any, i: int, o: dict, sub: bool, where: str = "p
             return
     for n, r in enumerate(reqs):
         if r["code"] == 404:
+            # `A vanished object (404) ends patching silently` -- an object that has NOT vanished must get everything that was
+            # accumulated for it: a 404 which nobody scripted, for an object that is there right before and right after the
+            # request, is the answer of an endpoint the resource does not have
+            if r.get("injected") is False and r["pre"] is not None and r["post"] is not None \
+                    and r["pre"]["metadata"]["uid"] == r["post"]["metadata"]["uid"]:
+                fail(f"the {r['kind']} request to {r['path']} was answered 404 although the object is there (uid {r['pre']['metadata']['uid']}): "
+                     f"the patching took it for vanished and dropped the rest of {fields} + {fns}", SIG_LIVING_404)
             if n != len(reqs) - 1:
                 fail("requests continued after a 404", {"site": "patching.patch_obj", "shape": "request after 404"})
             if out["kind"] != "ok" or out.get("remaining") is not None or out.get("body") is not None:
@@ -763,7 +854,7 @@ def oracle_call(ctx: Ctx, case: Any, i: int, o: dict, sub: bool, where: str = "p
                      {"site": "patching.patch_obj", "shape": "state-dependent field written by an unversioned merge-patch"})
                 break
     if not sub and any(r["kind"] in ("mergeStatus", "jsonStatus") for r in reqs):
-        fail("a /status request although the resource has no status subresource", {"site": "patching.patch_obj", "shape": "status routed to a missing subresource"})
+        fail("a /status request although the resource has no status subresource", SIG_ROUTE)
     for r in reqs:
         if r["kind"].startswith("merge") and r["code"] == 200:
             post = r["post"]
@@ -885,6 +976,17 @@ def oracle_case(ctx: Ctx, case: dict, obs: dict) -> None:
     cycles = obs["cycles"]
     sub = case["sub"]
     event = case.get("carrier", "event") == "event"
+    # `exactly when the resource has one`: what the operator learnt about every resource of the cluster (by its own API
+    # discovery) is what the cluster serves for THAT resource -- whatever else is served beside it, in whatever order listed
+    disc = obs.get("discovered")
+    if disc is not None:
+        facts = cluster_facts(case)
+        for key in sorted(facts):
+            got = disc["resources"].get(key)
+            if got is None or sorted(got) != sorted(facts[key]):
+                ctx.oracle_fail(f"resource {key}: the cluster serves the subresources {facts[key]}, the operator's discovery says {got} "
+                                f"(entries served: {disc['served']})", {"case": case, "cycle": None}, SIG_DISCOVERY)
+                break
     for i, o in enumerate(cycles):
         if "skipped" in o or o.get("empty"):
             continue
@@ -988,6 +1090,8 @@ def oracle_case(ctx: Ctx, case: dict, obs: dict) -> None:
 # ----------------------------------------------------------------------------------------------
 # the tie: the same case through the Lean model
 def model_request(case: dict, obs: dict) -> list | None:
+    if not obs["cycles"]:
+        return None
     first = obs["cycles"][0]
     if "skipped" in first:
         return None
@@ -997,8 +1101,13 @@ def model_request(case: dict, obs: dict) -> list | None:
             break
         cycles.append({"fields": cyc["fields"], "fns": norm_fns(cyc["fns"]), "orig": "server",
                        "slips": cyc.get("slips") or {}, "faults": {k: v for k, v in (cyc.get("faults") or {}).items() if v}})
-    return ["C08.cycles", {"sub": case["sub"], "daemon": case.get("carrier", "event") == "daemon",
-                           "server": first["server_before"], "memory": None, "cycles": cycles}]
+    req = {"sub": case["sub"], "daemon": case.get("carrier", "event") == "daemon",
+           "server": first["server_before"], "memory": None, "cycles": cycles}
+    served = (obs.get("discovered") or {}).get("served") or {}
+    if f"{GROUP}/{VERSION}" in served:
+        # the model's `sub` is what ITS reading of the served discovery entries gives (Model/C08_Discovery.lean), not the case's flag
+        req["discovery"] = {"names": served[f"{GROUP}/{VERSION}"], "plural": PLURAL}
+    return ["C08.cycles", req]
 
 
 def impl_view(o: dict, via: str) -> dict:
@@ -1273,10 +1382,68 @@ def gen_random(rng: Any, i: int) -> dict:
             "carrier": rng.choice(["event", "event", "daemon"]), "tag": f"random:{i}"}
 
 
+def name_relation(sib: dict) -> str:
+    """What the sibling's name has to do with `kopfexamples` of kopf.dev/v1 (for the histograms)."""
+    p = sib["plural"]
+    where = "same group/version" if (sib["group"], sib["version"]) == (GROUP, VERSION) else \
+        "other version" if sib["group"] == GROUP else "core group" if not sib["group"] else "other group"
+    rel = "same plural" if p == PLURAL else "extends ours" if p.startswith(PLURAL) else "prefix of ours" if PLURAL.startswith(p) else \
+        "ends like ours" if p.endswith(PLURAL) or PLURAL.endswith(p) else "contains ours" if PLURAL in p else "unrelated"
+    return f"{rel}, {where}"
+
+
+_SUBS = ["status", "scale", "statusx", "xstatus", "status/x", "approval"]
+
+
+def gen_cluster(rng: Any, sub: bool) -> dict | None:
+    """The resources served beside `kopfexamples`: names that extend it, are prefixes of it, end like it, contain it, are
+    unrelated; in its own group/version, another version, another group, the core group; each with its own subresources
+    (with/without `status`, look-alikes of `status`); and the order of the entries of the discovery answers."""
+    if rng.random() < 0.15:
+        return None
+    sibs = []
+    for _ in range(rng.choice([1, 1, 2, 2, 3, 4])):
+        r = rng.random()
+        if r < 0.35:
+            plural = PLURAL + rng.choice(["ets", "x", "2", "-old", "es", "s"])
+        elif r < 0.55:
+            plural = PLURAL[:rng.choice([1, 4, 8, len(PLURAL) - 1, len(PLURAL) - 1])]
+        elif r < 0.65:
+            plural = rng.choice(["x" + PLURAL, "examples", "s", "my" + PLURAL + "x"])
+        elif r < 0.77:
+            plural = PLURAL
+        else:
+            plural = rng.choice(["widgets", "widgetsets", "pods", "status", "jobs"])
+        r = rng.random()
+        group, version = (GROUP, VERSION) if r < 0.7 else (GROUP, rng.choice(["v1beta1", "v2", "v1x"])) if r < 0.82 else \
+            ("", "v1") if r < 0.88 else (rng.choice(["other.dev", "kopf.dev.x", "kopf"]), rng.choice(["v1", "v2"]))
+        if (group, version, plural) == (GROUP, VERSION, PLURAL):
+            group = "other.dev"
+        # mostly the opposite of ours as to `status`: the neighbour whose fact must not rub off on us
+        has_status = (not sub) if rng.random() < 0.7 else sub
+        subs = (["status"] if has_status else []) + [x for x in _SUBS[1:] if rng.random() < 0.15]
+        rng.shuffle(subs)
+        sibs.append({"group": group, "version": version, "plural": plural, "kind": f"Sibling{len(sibs)}", "subs": subs,
+                     "namespaced": rng.random() < 0.85})
+    order = rng.choice(["asis", "asis", "subs-first", "subs-last", "reversed", ["shuffled", rng.randrange(10 ** 6)]])
+    # our own resource's other subresources: names that look like `status` but are not it
+    own = [x for x in _SUBS[1:] if rng.random() < 0.25] if rng.random() < 0.35 else []
+    return {"siblings": sibs, "order": order, "own_subs": own}
+
+
+def with_cluster(case: dict, rng: Any) -> dict:
+    if "cluster" in case:
+        return case
+    case = dict(case)
+    case["cluster"] = gen_cluster(rng, bool(case["sub"]))
+    return case
+
+
 # ----------------------------------------------------------------------------------------------
 def evaluate(ctx: Ctx, cases: list[dict], tie: bool = True) -> None:
     results = run_cases(cases)
     reqs, views, wheres = [], [], []
+    disc_seen: dict[tuple, tuple[dict, dict]] = {}     # (group/version, entries as served) -> (first case, what kopf's scan made of them)
     for case, obs in zip(cases, results):
         if "harness_error" in obs:
             raise RuntimeError(f"case failed in the harness: {obs['harness_error']}\n{obs.get('tb')}\n{json.dumps(case)[:2000]}")
@@ -1293,6 +1460,19 @@ def evaluate(ctx: Ctx, cases: list[dict], tie: bool = True) -> None:
             for d in cyc["fns"]:
                 ctx.count("fn_shape", {"p": "functools.partial", "c": "callable object"}.get(d[0][0], "function") if d[0] not in ("block", "allow") else "kopf's own partial")
         ctx.count("subresource", case["sub"])
+        sibs = (case.get("cluster") or {}).get("siblings") or []
+        ctx.count("cluster_siblings", len(sibs))
+        ctx.count("own_other_subresources", ",".join(sorted((case.get("cluster") or {}).get("own_subs") or [])) or "none")
+        ctx.count("discovery_order", str(((case.get("cluster") or {}).get("order") or "asis") if not isinstance((case.get("cluster") or {}).get("order"), list) else "shuffled"))
+        for sib in sibs:
+            ctx.count("sibling_name", f"{name_relation(sib)}; status subresource: {'status' in (sib.get('subs') or [])}")
+        rels = {name_relation(sib) for sib in sibs if ("status" in (sib.get("subs") or [])) != bool(case["sub"])}
+        ctx.count("sibling_that_differs_in_status", ",".join(sorted(rels)) or "none")
+        for gv, names in ((obs.get("discovered") or {}).get("served") or {}).items():
+            dkey = (gv, tuple(names))
+            if dkey not in disc_seen:
+                disc_seen[dkey] = (case, {k.rsplit("/", 1)[1]: v for k, v in obs["discovered"]["resources"].items()
+                                          if k.rsplit("/", 1)[0] == (gv if "/" in gv else "/" + gv)})
         cyc_obs = [o for o in obs["cycles"] if "reqs" in o]
         for a, b in zip(cyc_obs, cyc_obs[1:]):
             # the documented re-application: 3rd request accepted, 4th refused, everything applied again next time
@@ -1322,13 +1502,24 @@ def evaluate(ctx: Ctx, cases: list[dict], tie: bool = True) -> None:
             if mr is not None:
                 reqs.append(mr)
                 views.append((case, obs))
-    if not tie or not reqs:
+    if not tie or not (reqs or disc_seen):
         return
+    dkeys = list(disc_seen)
     try:
-        outs = ask_driver(ctx, reqs)
+        outs = ask_driver(ctx, reqs + [["C08.discover", list(names)] for _gv, names in dkeys])
     except leanio.LeanError as e:
         ctx.tie_fail(f"Lean driver failed: {e}", {"log": e.log})
         return
+    # the discovery part of the model (`readVersion`) against kopf's own scan of the same entries
+    for dkey, out in zip(dkeys, outs[len(reqs):]):
+        case, impl_res = disc_seen[dkey]
+        if not out or out[0] != "ok":
+            ctx.tie_fail("driver rejected a discovery answer", {"case": case, "names": list(dkey[1]), "answer": out})
+            continue
+        ctx.compare("C08 discovery: resources and their subresources", {k: sorted(v) for k, v in impl_res.items()},
+                    {pl: sorted(subs) for pl, subs in out[1]}, {"case": case, "group_version": dkey[0], "names": list(dkey[1])})
+        ctx.count("discovery_answers_tied", "distinct (group/version, entry list)")
+    outs = outs[:len(reqs)]
     for (case, obs), req, out in zip(views, reqs, outs):
         if not out or out[0] != "ok":
             ctx.tie_fail("driver rejected a case", {"case": case, "request": req, "answer": out})
@@ -1368,6 +1559,8 @@ def run(ctx: Ctx) -> None:
     nrand = ctx.budget(1200, 40000)
     cases += [gen_random(ctx.rng, ctx.seed * 1_000_000 + i) for i in range(nrand)]
     cases += [gen_fulfil(ctx.rng, ctx.seed * 1_000_000 + i) for i in range(ctx.budget(300, 8000))]
+    crng = __import__("random").Random(f"C08-clusters:{ctx.seed}")     # its own stream: the cases above stay what they were
+    cases = [c if c.get("tag", "").startswith("corpus:") else with_cluster(c, crng) for c in cases]
     evaluate(ctx, cases)
     ctx.extra["grid_size"] = len(g)
     ctx.extra["strength"] = STRENGTH
@@ -1389,6 +1582,8 @@ def search(ctx: Ctx, broken: list) -> None:
         return
     cases = grid() + [gen_random(ctx.rng, 9_000_000 + ctx.seed * 1_000_000 + i) for i in range(ctx.budget(12000, 100000))]
     cases += [gen_fulfil(ctx.rng, 9_000_000 + ctx.seed * 1_000_000 + i) for i in range(ctx.budget(3000, 20000))]
+    crng = __import__("random").Random(f"C08-clusters-search:{ctx.seed}")
+    cases = [with_cluster(c, crng) for c in cases]
     evaluate(ctx, cases, tie=False)
     if any(f.kind == "oracle" and f.signature not in (SIG_F2, SIG_STATUS_NULL, SIG_F3, SIG_F6) for f in ctx.failures):
         return
